@@ -28,6 +28,7 @@ type Obligation struct {
 	Src      string
 	Where    string
 	Cover    bool // expects sat
+	Diag     bool // diagnostic cover (GOVC_DEADBLOCKS=1): reported as a note, never a verdict
 	Enc      *Enc
 	Result   *SolveResult
 	Inputs   map[string]string // name -> SMT term, for model extraction
